@@ -54,6 +54,25 @@ type W struct {
 
 var fileSeq int
 
+// Closures made on the base VM at boot and kept in static properties (hooks, container factories): their body
+// declares a function when it RUNS. Whoever runs it declares it — on the VM of the code that calls the closure.
+const hooksScript = `<?php
+class Hooks { public static $direct; public static $cuf; public static $bound; public static $boundcall; }
+Hooks::$direct = function() { function hooked_direct() { return "hd"; } return 1; };
+Hooks::$cuf = function() { function hooked_cuf() { return "hc"; } return 1; };
+Hooks::$bound = function() { function hooked_bound() { return "hb"; } return 1; };
+Hooks::$boundcall = function() { function hooked_boundcall() { return "hbc"; } return 1; };
+`
+
+var hookForms = map[string]string{
+	"direct":    "<?php\n$f = Hooks::$direct; $f();\n",
+	"cuf":       "<?php\ncall_user_func(Hooks::$cuf);\n",
+	"bound":     "<?php\n$f = Closure::bind(Hooks::$bound, null, Hooks::class); call_user_func($f);\n",
+	"boundcall": "<?php\n$f = Hooks::$boundcall; $g = $f->bindTo(null, Hooks::class); $g();\n",
+}
+
+var hookFormNames = []string{"bound", "boundcall", "cuf", "direct"}
+
 var classNames = []string{"A", "B", "C"}
 var funcNames = []string{"fa", "fb", "fc"}
 var ifaceNames = []string{"IA", "IB"}
@@ -169,6 +188,11 @@ func gen(r *verifsim.Rng, tier string) (any, hx.Sched) {
 				// script declares a class, an interface and a function, and the handler ends the request
 				op.K = "hotreq"
 			} else if r.Intn(6) == 0 {
+				// code on this VM runs a closure the base VM made at boot; the closure's body declares a function
+				op.K = "hook"
+				op.Fault = "" // (Defs[0].Name carries the form)
+				op.Defs = []Def{{"func", verifsim.Pick(r, hookFormNames)}}
+			} else if r.Intn(6) == 0 {
 				// a script running on this VM gives a class of its own a second name with class_alias()
 				op.K = "alias"
 			} else if r.Intn(3) == 0 {
@@ -262,8 +286,9 @@ type sys struct {
 	evalNames int
 	evalLast  string
 	evalOn    map[string]int
-	hotNames  []Def          // what finished hot-reload requests declared on their own VMs: resolvable nowhere afterwards
-	aliasOn   map[string]int // alias name -> VM whose code called class_alias() (-1: that VM was discarded)
+	hookOn    map[string]map[int]bool // hooked function name -> VMs whose code ran the base-made closure that declares it
+	hotNames  []Def                   // what finished hot-reload requests declared on their own VMs: resolvable nowhere afterwards
+	aliasOn   map[string]int          // alias name -> VM whose code called class_alias() (-1: that VM was discarded)
 }
 
 func (s *sys) vm(i int) data.VM {
@@ -588,6 +613,11 @@ func exec(t *testing.T, x any, s hx.Sched) *hx.Outcome {
 			o.Violate("C12/harness-setup", "probe classes cannot be defined on the base VM: "+failed)
 			return
 		}
+		if _, failed := sy.runOn(0, hooksScript, "/verif/c12/hooks.php"); failed != "" {
+			o.Violate("C12/harness-setup", "hook closures cannot be defined on the base VM: "+failed)
+			return
+		}
+		sy.hookOn = map[string]map[int]bool{}
 		m := newModel(w.Temps)
 		if !w.Conc {
 			sim.Spawn("driver", func() {
@@ -751,6 +781,21 @@ func step(o *hx.Outcome, w *W, sy *sys, m *model, k int, op Op, log *[]string, o
 			o.Violate("C12/lost/hot-request", fmt.Sprintf("step %d: the request's own VM resolves its declarations (class, interface, function) as %s (history: %s)", k, h.own, histStr(w, k)))
 		}
 		sy.hotNames = append(sy.hotNames, defs...)
+	case "hook":
+		form := op.Defs[0].Name
+		name := "hooked_" + form
+		_, failed := sy.runOn(op.VM, hookForms[form], fmt.Sprintf("/verif/c12/hook%d_vm%d.php", k, op.VM))
+		*log = append(*log, fmt.Sprintf("%d hook vm%d %s -> %s", k, op.VM, form, failed))
+		o.Probe("base_made_closures_run_on_a_vm", 1)
+		if sy.hookOn[name] == nil {
+			sy.hookOn[name] = map[int]bool{}
+		}
+		// (a second run on the same VM fails as a duplicate declaration; a first run that fails tells nothing)
+		if failed == "" {
+			sy.hookOn[name][op.VM] = true
+		} else if !sy.hookOn[name][op.VM] {
+			sy.hookOn[name][-1] = true // unknown: this form is not checked any further in this history
+		}
 	case "alias":
 		alias := fmt.Sprintf("AlName%d", k)
 		src := fmt.Sprintf("<?php\nclass AlSrc%d { }\n$r = class_alias(\"AlSrc%d\", \"%s\");\n", k, k, alias)
@@ -805,6 +850,9 @@ func step(o *hx.Outcome, w *W, sy *sys, m *model, k int, op Op, log *[]string, o
 			if on == op.VM {
 				sy.aliasOn[name] = -1
 			}
+		}
+		for _, on := range sy.hookOn {
+			delete(on, op.VM)
 		}
 		sy.temps[op.VM-1] = runtime.NewTempVM(sy.env.VM).(*runtime.TempVM)
 		if !w.NoPrep {
@@ -979,6 +1027,28 @@ func step(o *hx.Outcome, w *W, sy *sys, m *model, k int, op Op, log *[]string, o
 					vmk = "base"
 				}
 				o.Violate("C12/leak/hot-request/"+d.Kind+"/into-"+vmk, fmt.Sprintf("after step %d, vm%d resolves %s %s, which a finished request declared on the VM the hot-reload handler gave it (history: %s)", k, v, d.Kind, d.Name, histStr(w, k)))
+			}
+		}
+		// functions declared by base-made closures: registered where the closure RAN
+		for _, form := range hookFormNames {
+			name := "hooked_" + form
+			on := sy.hookOn[name]
+			if on == nil || on[-1] {
+				continue
+			}
+			f, ok := sy.vm(v).GetFunc(name)
+			has := ok && f != nil
+			if has && !on[0] && !on[v] {
+				vmk := "temp"
+				if v == 0 {
+					vmk = "base"
+				}
+				var ran []int
+				for u := range on {
+					ran = append(ran, u)
+				}
+				sort.Ints(ran)
+				o.Violate("C12/leak/hook/"+form+"/into-"+vmk, fmt.Sprintf("after step %d, vm%d resolves %s, a function declared by a closure (made on the base VM at boot) that only code on vm%v ran (history: %s)", k, v, name, ran, histStr(w, k)))
 			}
 		}
 		// names given with class_alias(): whatever the call does, the name belongs to the VM whose code gave it
